@@ -328,21 +328,28 @@ fn server_half(ctx: &mut Ctx) {
 #[derive(Clone, Debug)]
 pub struct ClientCase {
     pub conts: Vec<Value>,
+    /// indexes of continues replies that are *error* replies carrying `continues: true` (legal: the
+    /// crate's own server writes them for set_continues(true) + reply_error); the stream goes on
+    pub cont_errors: Vec<usize>,
     pub fin: Value,
     pub follow: Vec<Value>,
 }
 
 fn client_json(c: &ClientCase) -> Value {
-    json!({"continues_params": c.conts, "final": c.fin, "follow_up_finals": c.follow})
+    json!({"continues_params": c.conts, "continues_that_are_errors": c.cont_errors, "final": c.fin, "follow_up_finals": c.follow})
+}
+
+fn cont_reply(c: &ClientCase, i: usize) -> Value {
+    if c.cont_errors.contains(&i) {
+        json!({"continues": true, "error": "org.x.StreamHiccup", "parameters": c.conts[i]})
+    } else {
+        json!({"continues": true, "parameters": c.conts[i]})
+    }
 }
 
 pub fn run_client(c: &ClientCase) -> Result<(), Fail> {
     let mut fake = Fake::new();
-    let mut wire: Vec<Value> = c
-        .conts
-        .iter()
-        .map(|p| json!({"continues": true, "parameters": p}))
-        .collect();
+    let mut wire: Vec<Value> = (0..c.conts.len()).map(|i| cont_reply(c, i)).collect();
     wire.push(c.fin.clone());
     fake.push_replies(&wire);
     let mut call = vcall(&fake.conn, "org.x.Stream", json!({"token": "s"}));
@@ -364,6 +371,10 @@ pub fn run_client(c: &ClientCase) -> Result<(), Fail> {
         ));
     }
     for (i, p) in c.conts.iter().enumerate() {
+        if c.cont_errors.contains(&i) {
+            check_outcome("client-more/error-item-with-continues", &expected_outcome(&cont_reply(c, i)), &got[i])?;
+            continue;
+        }
         let want: Value = serde_json::from_str(&p.to_string()).unwrap();
         let want = if want.is_null() { json!({}) } else { want };
         match &got[i] {
@@ -405,6 +416,7 @@ fn client_half(ctx: &mut Ctx) {
     for k in 0..=32usize {
         let c = ClientCase {
             conts: (0..k).map(|i| json!({"i": i})).collect(),
+            cont_errors: if k % 3 == 2 { vec![k / 2] } else { vec![] },
             fin: json!({"parameters": {"i": k}}),
             follow: vec![json!({"parameters": {"after": k}})],
         };
@@ -416,10 +428,16 @@ fn client_half(ctx: &mut Ctx) {
     }
     let strat = (
         prop::collection::vec(json_value(2), 0..=32),
+        prop::collection::vec(any::<prop::sample::Index>(), 0..3),
         final_reply_strategy(),
         prop::collection::vec(final_reply_strategy(), 0..3),
     )
-        .prop_map(|(conts, fin, follow)| ClientCase { conts, fin, follow });
+        .prop_map(|(conts, errs, fin, follow)| {
+            let mut cont_errors: Vec<usize> = if conts.is_empty() { vec![] } else { errs.iter().map(|i| i.index(conts.len())).collect() };
+            cont_errors.sort();
+            cont_errors.dedup();
+            ClientCase { conts, cont_errors, fin, follow }
+        });
     let cases = ctx.tier.pick(6_000, 100_000);
     let r = pt::check(ctx, "c05-client-random", cases, strat, |ctx, c| {
         let is_err = c.fin.get("error").map(|e| !e.is_null()).unwrap_or(false);
@@ -443,7 +461,12 @@ fn replay(ctx: &mut Ctx, v: &Value) {
         run_script_spelled(&script, cj["more"].as_bool().unwrap_or(false), cj["oneway"].as_bool().unwrap_or(false), cj["unset_flags_spelled_false"].as_bool().unwrap_or(false))
     } else {
         let arr = |x: &Value| x.as_array().cloned().unwrap_or_default();
-        run_client(&ClientCase { conts: arr(&cj["continues_params"]), fin: cj["final"].clone(), follow: arr(&cj["follow_up_finals"]) })
+        run_client(&ClientCase {
+            conts: arr(&cj["continues_params"]),
+            cont_errors: arr(&cj["continues_that_are_errors"]).iter().filter_map(|x| x.as_u64()).map(|x| x as usize).collect(),
+            fin: cj["final"].clone(),
+            follow: arr(&cj["follow_up_finals"]),
+        })
     };
     if let Err(f) = res {
         ctx.violation(&f.key, &f.what, "c05-replay", cj.clone());
